@@ -86,6 +86,8 @@ type Cluster struct {
 	Panics int32
 	// CallOf maps token -> call index for logging (set by the client side)
 	callOf sync.Map
+	// exitAt keeps the wall-clock time of handler exits (bkey -> time.Time); only C10 reads it
+	exitAt sync.Map
 }
 
 // NewCluster creates n servers (not started).
@@ -398,6 +400,7 @@ func (s *impl) twoWay(ctx gorums.ServerCtx, method string, req *puppet.Req) (*pu
 			ev.ErrCode = int(codes.Unknown)
 		}
 	}
+	s.c.exitAt.Store(bkey{s.i, req.GetToken()}, time.Now())
 	s.c.Log.Add(ev)
 	return rep, err
 }
@@ -500,3 +503,11 @@ func (s *impl) MulticastPerNode(ctx gorums.ServerCtx, r *puppet.Req) {
 	s.oneWay(ctx, "MulticastPerNode", r)
 }
 func (s *impl) Unicast(ctx gorums.ServerCtx, r *puppet.Req) { s.oneWay(ctx, "Unicast", r) }
+
+// ExitTime returns the wall-clock time at which the handler of (server, token) exited.
+func (c *Cluster) ExitTime(server int, token uint64) time.Time {
+	if v, ok := c.exitAt.Load(bkey{server, token}); ok {
+		return v.(time.Time)
+	}
+	return time.Now()
+}
